@@ -259,6 +259,56 @@ def _shm_segments(uid):
         return []
 
 
+_REAPER = r"""
+import os, sys, time, signal
+sid, parent, tmax, uid = int(sys.argv[1]), int(sys.argv[2]), float(sys.argv[3]), sys.argv[4]
+t0 = time.time()
+while time.time() - t0 < tmax:
+    try:
+        os.kill(parent, 0)
+    except OSError:
+        break
+    time.sleep(0.5)
+for _ in range(5):
+    n = 0
+    for d in os.listdir('/proc'):
+        if not d.isdigit():
+            continue
+        try:
+            s = open('/proc/%s/stat' % d).read()
+            if int(s[s.rindex(')') + 2:].split()[3]) == sid:
+                os.kill(int(d), signal.SIGKILL)
+                n += 1
+        except (OSError, ValueError):
+            pass
+    if not n:
+        break
+    time.sleep(0.2)
+for f in os.listdir('/dev/shm'):
+    if f.startswith('sCasc' + uid):
+        try:
+            os.unlink('/dev/shm/' + f)
+        except OSError:
+            pass
+for f in os.listdir('/tmp'):
+    if f.startswith(uid):
+        try:
+            os.unlink('/tmp/' + f)
+        except OSError:
+            pass
+"""
+
+
+def _start_reaper(sid, uid, tmax):
+    """Safety net: if the check process itself is killed, an independent tiny process still kills the run's
+    session and unlinks its segments."""
+    try:
+        return subprocess.Popen([sys.executable, "-S", "-E", "-c", _REAPER, str(sid), str(os.getpid()), str(tmax), uid],
+                                stdout=subprocess.DEVNULL, stderr=subprocess.DEVNULL, stdin=subprocess.DEVNULL, start_new_session=True)
+    except OSError:
+        return None
+
+
 def run_case(case, deadline_s=30.0, settle_s=6.0):
     """Run one (fault) run. Returns the observation dict:
     ended: ok|error|hang|infra ; outputs ; leftover_procs ; leftover_shm ; wall."""
@@ -272,6 +322,7 @@ def run_case(case, deadline_s=30.0, settle_s=6.0):
     proc = subprocess.Popen([sys.executable, "-m", "ekw.c05_cluster", json.dumps(case)], stdout=subprocess.PIPE,
                             stderr=(open(case["debug"], "w") if case.get("debug") else subprocess.DEVNULL), stdin=subprocess.DEVNULL, env=env, start_new_session=True)
     sid = proc.pid
+    reaper = _start_reaper(sid, uid, deadline_s + settle_s + 60)
     obs = {"ended": "hang", "error": None, "outputs": {}, "leftover_procs": [], "leftover_shm": [], "phase": None}
     try:
         # read ONE result line with a deadline (EOF would come only when every forked child has exited)
@@ -335,6 +386,12 @@ def run_case(case, deadline_s=30.0, settle_s=6.0):
             obs["leftover_shm"] = _shm_segments(uid)
     finally:
         _cleanup(proc, sid, uid, case["pidfile"])
+        if reaper is not None:
+            try:
+                reaper.kill()
+                reaper.wait(timeout=5)
+            except Exception:
+                pass
     obs["wall"] = round(time.time() - t0, 2)
     return obs
 
